@@ -231,6 +231,8 @@ def harnesses(tier):
         hs.append(Build(f, 2, d))
     for f, d in (("str", "str"), ("float", "float"), ("int", "float")):
         hs.append(Build(f, 2, d, source="objarray"))
+    for f, d, src in (("str", None, "iter"), ("float", None, "iter"), ("int", "float", "iter"), ("str", "str", "tuple"), ("obj", None, "tuple")):
+        hs.append(Build(f, 2, d, source=src))
     for ks in [["f", "f", "f"], ["T", "T", "T"], ["i", "i", "i"], ["i", "f", "i"]] + ([] if q else [["D", "D", "D"], ["b", "b", "b"], ["f", "i", "f"], ["td", "td", "td"]]):
         hs.append(Equal(ks, 2))
     return hs
